@@ -85,6 +85,10 @@ type Exchange struct {
 func (e *Exchange) PeerClosedAt() time.Time {
 	e.mu.Lock()
 	defer e.mu.Unlock()
+	if e.PeerClosed.IsZero() && e.WriteErr != "" && !e.Finished.IsZero() {
+		// the script was still writing when the peer went away: the failed write is the observation
+		return e.Finished
+	}
 	return e.PeerClosed
 }
 
